@@ -5,13 +5,26 @@
 //
 // cfg = [len, authority bytes...]           the :authority the channel sends ("bufnet")
 //
-//	op [1, md, ncalls, kvs..., H, T]
+//	op [1, mode, md, ncalls, kvs..., H, T]
+//	     mode    0 unary RPC, the handler calls grpc.SetHeader(ctx, H), grpc.SetTrailer(ctx, T)
+//	             1 server-streaming, ss.SetHeader(H), ss.SetTrailer(T), one response message
+//	             2 server-streaming, ss.SendHeader(H), ss.SetTrailer(T), one response message
+//	             3 client-streaming (two request messages), ss.SetHeader(H), ss.SetTrailer(T)
+//	             a handler returns the first error one of these calls gives it
 //	     md      MD literal passed to NewOutgoingContext  [n, (key, nvals, vals...)...]
 //	     kvs     argument lists of successive AppendToOutgoingContext calls [n, (key, val)...]
 //	     H, T    MD literals the handler passes to grpc.SetHeader / grpc.SetTrailer
-//	obs [code, called, sent] ++ dump(handler's FromIncomingContext) ++ dump(client Header) ++ dump(client Trailer)
+//	obs [code, called, sent, srvrc] ++ dump(handler's FromIncomingContext) ++ dump(client Header) ++ dump(client Trailer)
 //	     sent = 1 iff the client's stats handler saw an OutHeader event for this RPC, i.e. the
-//	     request header fields were handed to the wire
+//	     request header fields were handed to the wire; srvrc = status code of the error the
+//	     handler got from SetHeader/SendHeader/SetTrailer (0 = every call returned nil)
+//
+//	op [2, n, (name, value)...]   a raw HTTP/2 peer (x/net/http2 Framer + hpack) opens its own
+//	     connection to the same server and sends one unary request whose header block is
+//	     :method POST, :scheme http, :path, :authority bufnet, content-type application/grpc,
+//	     user-agent grpc-go/<Version>, te trailers, followed by the n given fields verbatim
+//	obs [called, grpcstatus] ++ dump(handler's FromIncomingContext)
+//	     grpcstatus = the grpc-status the peer received, -1 for RST_STREAM, -2 for anything else
 //
 // dump = [nkeys, (key, nvals, vals...)...] keys sorted; an absent MD dumps as [0].
 // Transport constants are abbreviated: the user-agent value "grpc-go/<Version>" is
@@ -20,13 +33,19 @@
 package mdwire
 
 import (
+	"bytes"
 	"context"
+	"encoding/base64"
+	"io"
 	"net"
 	"sort"
+	"strconv"
 	"sync/atomic"
 	"testing"
 	"time"
 
+	"golang.org/x/net/http2"
+	"golang.org/x/net/http2/hpack"
 	"google.golang.org/grpc"
 	"google.golang.org/grpc/credentials/insecure"
 	"google.golang.org/grpc/metadata"
@@ -129,9 +148,11 @@ func vMDWireDump(md metadata.MD) []int64 {
 }
 
 type vMDWireCall struct {
+	mode   int64
 	h, t   metadata.MD
 	called bool
 	got    metadata.MD
+	srvrc  int64
 }
 
 // vMDWireStats counts the header blocks the client transport wrote.
@@ -147,6 +168,7 @@ func (h *vMDWireStats) TagConn(ctx context.Context, _ *stats.ConnTagInfo) contex
 func (h *vMDWireStats) HandleConn(context.Context, stats.ConnStats)                       {}
 
 type vMDWireEnv struct {
+	lis  *bufconn.Listener
 	st   *vMDWireStats
 	cc   *grpc.ClientConn
 	srv  *grpc.Server
@@ -164,23 +186,92 @@ func vMDWireHandler(srv any, ctx context.Context, dec func(any) error, _ grpc.Un
 	c.called = true
 	c.got, _ = metadata.FromIncomingContext(ctx)
 	if err := grpc.SetHeader(ctx, c.h); err != nil {
+		c.srvrc = int64(status.Code(err))
 		return nil, err
 	}
 	if err := grpc.SetTrailer(ctx, c.t); err != nil {
+		c.srvrc = int64(status.Code(err))
 		return nil, err
 	}
 	return &emptypb.Empty{}, nil
+}
+
+func vMDWireStreamHandler(srv any, ss grpc.ServerStream) error {
+	env := srv.(*vMDWireEnv)
+	c := env.cur
+	if c.mode == 3 {
+		for {
+			if err := ss.RecvMsg(new(emptypb.Empty)); err == io.EOF {
+				break
+			} else if err != nil {
+				return err
+			}
+		}
+	} else if err := ss.RecvMsg(new(emptypb.Empty)); err != nil {
+		return err
+	}
+	c.called = true
+	c.got, _ = metadata.FromIncomingContext(ss.Context())
+	var err error
+	if c.mode == 2 {
+		err = ss.SendHeader(c.h)
+	} else {
+		err = ss.SetHeader(c.h)
+	}
+	if err != nil {
+		c.srvrc = int64(status.Code(err))
+		return err
+	}
+	ss.SetTrailer(c.t)
+	return ss.SendMsg(&emptypb.Empty{})
 }
 
 var vMDWireDesc = grpc.ServiceDesc{
 	ServiceName: "verif.MDWire",
 	HandlerType: (*any)(nil),
 	Methods:     []grpc.MethodDesc{{MethodName: "U", Handler: vMDWireHandler}},
+	Streams: []grpc.StreamDesc{{StreamName: "SS", Handler: vMDWireStreamHandler, ServerStreams: true},
+		{StreamName: "CS", Handler: vMDWireStreamHandler, ClientStreams: true}},
+}
+
+// vMDWireInvoke performs one RPC of the given shape and returns error, Header(), Trailer().
+func vMDWireInvoke(ctx context.Context, cc *grpc.ClientConn, mode int64) (error, metadata.MD, metadata.MD) {
+	if mode == 0 {
+		var hdr, trl metadata.MD
+		err := cc.Invoke(ctx, "/verif.MDWire/U", &emptypb.Empty{}, &emptypb.Empty{}, grpc.Header(&hdr), grpc.Trailer(&trl))
+		return err, hdr, trl
+	}
+	desc, method, nsend := &vMDWireDesc.Streams[0], "/verif.MDWire/SS", 1
+	if mode == 3 {
+		desc, method, nsend = &vMDWireDesc.Streams[1], "/verif.MDWire/CS", 2
+	}
+	cs, err := cc.NewStream(ctx, desc, method)
+	if err != nil {
+		return err, nil, nil
+	}
+	for i := 0; i < nsend; i++ {
+		if err := cs.SendMsg(&emptypb.Empty{}); err != nil {
+			break
+		}
+	}
+	cs.CloseSend()
+	hdr, _ := cs.Header()
+	for {
+		err = cs.RecvMsg(new(emptypb.Empty))
+		if err != nil {
+			break
+		}
+	}
+	if err == io.EOF {
+		err = nil
+	}
+	return err, hdr, cs.Trailer()
 }
 
 func vMDWireStart() *vMDWireEnv {
 	env := &vMDWireEnv{st: &vMDWireStats{}}
 	lis := bufconn.Listen(1 << 20)
+	env.lis = lis
 	env.srv = grpc.NewServer()
 	env.srv.RegisterService(&vMDWireDesc, env)
 	go env.srv.Serve(lis)
@@ -196,6 +287,68 @@ func vMDWireStart() *vMDWireEnv {
 	return env
 }
 
+// vMDWireRaw plays a minimal HTTP/2 client by hand.
+func vMDWireRaw(env *vMDWireEnv, extra [][2]string) int64 {
+	conn, err := env.lis.Dial()
+	if err != nil {
+		return -2
+	}
+	defer conn.Close()
+	conn.SetDeadline(time.Now().Add(20 * time.Second))
+	if _, err := conn.Write([]byte(http2.ClientPreface)); err != nil {
+		return -2
+	}
+	fr := http2.NewFramer(conn, conn)
+	fr.ReadMetaHeaders = hpack.NewDecoder(4096, nil)
+	if err := fr.WriteSettings(); err != nil {
+		return -2
+	}
+	var hb bytes.Buffer
+	enc := hpack.NewEncoder(&hb)
+	fields := [][2]string{{":method", "POST"}, {":scheme", "http"}, {":path", "/verif.MDWire/U"}, {":authority", "bufnet"},
+		{"content-type", "application/grpc"}, {"user-agent", "grpc-go/" + grpc.Version}, {"te", "trailers"}}
+	for _, f := range append(fields, extra...) {
+		enc.WriteField(hpack.HeaderField{Name: f[0], Value: f[1]})
+	}
+	if err := fr.WriteHeaders(http2.HeadersFrameParam{StreamID: 1, BlockFragment: hb.Bytes(), EndHeaders: true}); err != nil {
+		return -2
+	}
+	if err := fr.WriteData(1, true, []byte{0, 0, 0, 0, 0}); err != nil {
+		return -2
+	}
+	for {
+		f, err := fr.ReadFrame()
+		if err != nil {
+			return -2
+		}
+		switch f := f.(type) {
+		case *http2.SettingsFrame:
+			if !f.IsAck() {
+				fr.WriteSettingsAck()
+			}
+		case *http2.PingFrame:
+			if !f.IsAck() {
+				fr.WritePing(true, f.Data)
+			}
+		case *http2.RSTStreamFrame:
+			return -1
+		case *http2.GoAwayFrame:
+			return -2
+		case *http2.MetaHeadersFrame:
+			if f.StreamEnded() {
+				for _, hf := range f.Fields {
+					if hf.Name == "grpc-status" {
+						if v, err := strconv.Atoi(hf.Value); err == nil {
+							return int64(v)
+						}
+					}
+				}
+				return -2
+			}
+		}
+	}
+}
+
 func vMDWireExec(cfg []int64, ops [][]int64) ([][]int64, bool, []string) {
 	env := vMDWireStart()
 	defer env.stop()
@@ -205,10 +358,36 @@ func vMDWireExec(cfg []int64, ops [][]int64) ([][]int64, bool, []string) {
 	for _, op := range ops {
 		var o []int64
 		func() {
-			if len(op) < 2 || op[0] != 1 {
+			if len(op) >= 2 && op[0] == 2 && op[1] >= 0 {
+				w := op[2:]
+				var extra [][2]string
+				for i := 0; i < int(op[1]); i++ {
+					k, r, ok := vMDWireStr(w)
+					if !ok {
+						return
+					}
+					v, r2, ok := vMDWireStr(r)
+					if !ok {
+						return
+					}
+					extra = append(extra, [2]string{k, v})
+					w = r2
+				}
+				if len(w) != 0 {
+					return
+				}
+				c := &vMDWireCall{}
+				env.cur = c
+				gs := vMDWireRaw(env, extra)
+				o = vCat([]int64{vB(c.called), gs}, vMDWireDump(c.got))
+				tagset["rawpeer"] = true
 				return
 			}
-			md, w, ok := vMDWireMD(op[1:])
+			if len(op) < 3 || op[0] != 1 || op[1] < 0 || op[1] > 3 {
+				return
+			}
+			mode := op[1]
+			md, w, ok := vMDWireMD(op[2:])
 			if !ok || len(w) == 0 || w[0] < 0 {
 				return
 			}
@@ -231,7 +410,7 @@ func vMDWireExec(cfg []int64, ops [][]int64) ([][]int64, bool, []string) {
 			if !ok || len(w) != 0 {
 				return
 			}
-			c := &vMDWireCall{h: h, t: t}
+			c := &vMDWireCall{mode: mode, h: h, t: t}
 			env.cur = c
 			ctx, cancel := context.WithCancel(context.Background())
 			defer cancel()
@@ -241,20 +420,27 @@ func vMDWireExec(cfg []int64, ops [][]int64) ([][]int64, bool, []string) {
 			}
 			var hdr, trl metadata.MD
 			sent0 := atomic.LoadInt64(&env.st.outHeaders)
-			done := make(chan error, 1)
+			type res struct {
+				err      error
+				hdr, trl metadata.MD
+			}
+			done := make(chan res, 1)
 			go func() {
-				done <- env.cc.Invoke(ctx, "/verif.MDWire/U", &emptypb.Empty{}, &emptypb.Empty{}, grpc.Header(&hdr), grpc.Trailer(&trl))
+				e, h2, t2 := vMDWireInvoke(ctx, env.cc, mode)
+				done <- res{e, h2, t2}
 			}()
 			var err error
 			select {
-			case err = <-done:
+			case r := <-done:
+				err, hdr, trl = r.err, r.hdr, r.trl
 			case <-time.After(20 * time.Second):
 				cancel()
-				err = <-done
+				r := <-done
+				err, hdr, trl = r.err, r.hdr, r.trl
 				tagset["timeout"] = true
 			}
 			code := int64(status.Code(err))
-			o = vCat([]int64{code, vB(c.called), atomic.LoadInt64(&env.st.outHeaders) - sent0}, vMDWireDump(c.got), vMDWireDump(hdr), vMDWireDump(trl))
+			o = vCat([]int64{code, vB(c.called), atomic.LoadInt64(&env.st.outHeaders) - sent0, c.srvrc}, vMDWireDump(c.got), vMDWireDump(hdr), vMDWireDump(trl))
 			if c.called {
 				bin := false
 				for k, v := range c.got {
@@ -308,12 +494,16 @@ func vMDWireEncKVs(kv []string) []int64 {
 	return out
 }
 
-func vMDWireOp(md []vMDWireEntry, calls [][]string, h, t []vMDWireEntry) []int64 {
-	w := vCat([]int64{1}, vMDWireEncMD(md), []int64{int64(len(calls))})
+func vMDWireOpM(mode int64, md []vMDWireEntry, calls [][]string, h, t []vMDWireEntry) []int64 {
+	w := vCat([]int64{1, mode}, vMDWireEncMD(md), []int64{int64(len(calls))})
 	for _, kv := range calls {
 		w = append(w, vMDWireEncKVs(kv)...)
 	}
 	return vCat(w, vMDWireEncMD(h), vMDWireEncMD(t))
+}
+
+func vMDWireOp(md []vMDWireEntry, calls [][]string, h, t []vMDWireEntry) []int64 {
+	return vMDWireOpM(0, md, calls, h, t)
 }
 
 var vMDWireKeys = []string{"a", "b", "k-1", "x_.z", "0", "a-bin", "b-bin", "x.y-bin", "grpc-previous-rpc-attempts", "grpc-retry-pushback-ms", "grpc-accept-encoding", "bin", "-bin"}
@@ -440,6 +630,58 @@ func vMDWireGen(r *vRand, tier string, idx int) ([]int64, [][]int64) {
 				[]vMDWireEntry{E(":status", "500"), E("content-type", "text/html"), E("grpc-status", "5"), E("grpc-message", "m"), E("user-agent", "x"), E(":authority", "x"), E("grpc-encoding", "gzip"), E("te", "x"), E("h", "1")},
 				[]vMDWireEntry{E("grpc-status", "5"), E("grpc-message", "m"), E("content-type", "x"), E(":status", "500"), E("user-agent", "x"), E("t", "1")}),
 		}
+	case 4: // every RPC shape: all byte values in -bin values, printable values, reserved names, empty metadata
+		all := string(func() []byte {
+			b := make([]byte, 256)
+			for i := range b {
+				b[i] = byte(i)
+			}
+			return b
+		}())
+		var ops [][]int64
+		for m := int64(1); m <= 3; m++ {
+			ops = append(ops,
+				vMDWireOpM(m, nil, nil, nil, nil),
+				vMDWireOpM(m, []vMDWireEntry{E("a-bin", all[:128], all[128:], ""), E("a", " x ", "")}, [][]string{{"A-BIN", "\n", "A", "2"}}, []vMDWireEntry{E("h-bin", all[100:200], ""), E("h", "~")}, []vMDWireEntry{E("t-bin", all[200:], "a", "ab"), E("t", "")}),
+				vMDWireOpM(m, []vMDWireEntry{E("te", "x"), E("grpc-status", "5"), E(":path", "/evil"), E("k", "v")}, [][]string{{"User-Agent", "evil"}},
+					[]vMDWireEntry{E(":status", "500"), E("content-type", "text/html"), E("grpc-status", "5"), E("h", "1")},
+					[]vMDWireEntry{E("grpc-status", "5"), E("grpc-message", "m"), E("t", "1")}),
+				vMDWireOpM(m, []vMDWireEntry{E("a", "\x7f")}, nil, nil, nil),
+				vMDWireOpM(m, nil, [][]string{{"", "x"}}, nil, nil))
+		}
+		return cfg, ops
+	case 5: // invalid header metadata given to ServerStream.SetHeader / SendHeader: refused with INTERNAL
+		var ops [][]int64
+		for m := int64(1); m <= 3; m++ {
+			for _, h := range [][]vMDWireEntry{{E("h", "a\x7f")}, {E("h", "a\x80")}, {E("H", "1")}, {E("", "1")}, {E("h", "a\tb")}, {E("h!", "1")}, {E("ok", "1"), E("h", "\x00")}} {
+				ops = append(ops, vMDWireOpM(m, []vMDWireEntry{E("a", "1")}, [][]string{{"B", "2"}}, h, []vMDWireEntry{E("t", "2")}))
+			}
+		}
+		return cfg, ops
+	case 10: // raw peer: padded / unpadded / malformed base64, reserved names from the peer
+		R := func(kv ...string) []int64 {
+			w := []int64{2, int64(len(kv) / 2)}
+			for _, x := range kv {
+				w = append(w, vMDWireS(x)...)
+			}
+			return w
+		}
+		return cfg, [][]int64{R(), R("k-bin", "YQ=="), R("k-bin", "YQ"), R("k-bin", "YWI="), R("k-bin", "YWI"), R("k-bin", "YWJj"), R("k-bin", "YWJjZA=="), R("k-bin", ""),
+			R("k-bin", "YR=="), R("k-bin", "/+8="), R("k-bin", "AAECAwQFBgcICQoLDA0ODw=="), R("k-bin", "YQ==", "k-bin", "Yg", "k", "v", "k-bin", "Yw=="),
+			R("k-bin", "YQ="), R("k-bin", "Y"), R("k-bin", "===="), R("k-bin", "YQ==YQ=="), R("k-bin", "Y Q=="), R("k-bin", "YQ=a"), R("k-bin", "a-b_"),
+			R("te", "x", "grpc-status", "5", "grpc-message", "m", "grpc-message-type", "t", "k", "v"), R("grpc-timeout", "1S", "k", "v"),
+			R("grpc-accept-encoding", "identity", "k", "v"), R("grpc-previous-rpc-attempts", "3"),
+			R("user-agent", "evil"), R("content-type", "text/html"), R("host", "h"), R("host", "a", "host", "b"), R("connection", "close"),
+			R(":authority", "other"), R(":foo", "x"), R("K", "v"), R("k", "a\x7fb"), R("k", "a\x80b"), R("", "v")}
+	case 6: // finding replays: server metadata the API does not validate (unary helpers, SetTrailer)
+		return cfg, [][]int64{vMDWireOpM(0, nil, nil, []vMDWireEntry{E("h", "a\x80")}, nil)}
+	case 7:
+		return cfg, [][]int64{vMDWireOpM(0, nil, nil, []vMDWireEntry{E("h", "a\x7f")}, nil)}
+	case 8:
+		return cfg, [][]int64{vMDWireOpM(1, nil, nil, nil, []vMDWireEntry{E("t", "a\x80")})}
+	case 9:
+		return cfg, [][]int64{vMDWireOpM(0, nil, nil, []vMDWireEntry{E("h", "1")}, []vMDWireEntry{E("T", "1")}),
+			vMDWireOpM(3, nil, nil, []vMDWireEntry{E("h", "1")}, []vMDWireEntry{E("t", "\x7f")})}
 	}
 	var ops [][]int64
 	n := 6
@@ -458,7 +700,35 @@ func vMDWireGen(r *vRand, tier string, idx int) ([]int64, [][]int64) {
 				calls = append(calls, []string{"Zz", string([]byte{'a', byte(r.PickInt(0, 10, 127, 200))})})
 			}
 		}
-		ops = append(ops, vMDWireOp(md, calls, vMDWireRandMD(r, 3, 20, true), vMDWireRandMD(r, 3, 20, true)))
+		if r.Chance(12) { // raw peer: -bin values in padded or unpadded base64, reserved names mixed in
+			w := []int64{2, 0}
+			nf := r.PickInt(1, 2, 3)
+			for j := 0; j < nf; j++ {
+				k := []string{"a-bin", "b-bin", "x.y-bin"}[r.Intn(3)]
+				v := vMDWireBinVal(r)
+				e := base64.RawStdEncoding.EncodeToString([]byte(v))
+				if r.Bool() {
+					e = base64.StdEncoding.EncodeToString([]byte(v))
+				}
+				switch r.Intn(6) {
+				case 0:
+					k, e = []string{"te", "grpc-status", "grpc-message", "grpc-message-type"}[r.Intn(4)], "x"
+				case 1:
+					k, e = vMDWireKeys[r.Intn(5)], vMDWireVals[r.Intn(len(vMDWireVals))]
+				}
+				w = append(w, vMDWireS(k)...)
+				w = append(w, vMDWireS(e)...)
+				w[1]++
+			}
+			ops = append(ops, w)
+			continue
+		}
+		mode := int64(r.Intn(4))
+		h, t := vMDWireRandMD(r, 3, 20, true), vMDWireRandMD(r, 3, 20, true)
+		if mode != 0 && r.Chance(10) { // invalid header metadata on the validating path
+			h = append(h, vMDWireEntry{[]string{"zz", "Zz", "z z"}[r.Intn(3)], []string{string([]byte{'a', byte(r.PickInt(0, 9, 31, 127, 128, 255))})}})
+		}
+		ops = append(ops, vMDWireOpM(mode, md, calls, h, t))
 	}
 	return cfg, ops
 }
